@@ -41,6 +41,11 @@ var solvers = []solverSpec{
 
 func parseStatus(out string) string {
 	for _, l := range strings.Split(out, "\n") {
+		if strings.HasPrefix(strings.TrimSpace(l), "(error") && !strings.Contains(l, "model is not available") {
+			return "error"
+		}
+	}
+	for _, l := range strings.Split(out, "\n") {
 		l = strings.TrimSpace(l)
 		switch l {
 		case "sat", "unsat", "unknown":
